@@ -837,7 +837,7 @@ func generateClauses(L *Loaded, root *packages.Package, cf *ContractFile) (strin
 		fmt.Fprintf(&hdr, "import %s %q\n", g.imports[p], p)
 	}
 	body := g.b.String()
-	for _, std := range []string{"strings", "regexp", "net/http", "sort", "bytes"} {
+	for _, std := range []string{"strings", "regexp", "net/http", "sort", "bytes", "net/textproto"} {
 		short := std[strings.LastIndex(std, "/")+1:]
 		if _, have := g.imports[std]; !have && strings.Contains(body, short+".") {
 			fmt.Fprintf(&hdr, "import %s %q\n", short, std)
